@@ -113,6 +113,51 @@ pub fn run(ctx: &mut Ctx, _replay: Option<&[String]>) {
             Err(_) => ctx.emit(&format!("c20 invalid mackay-neal-fails-{}", k), &fail_tokens(&o)[5..], true, &["mackay-neal-err"]),
         }
     }
+    // mackay-neal with EVERY option (tight shapes, so that backtracking and girth retries really happen), and the seed search
+    let (mut bt_used, mut differs_by_option) = (0usize, 0usize);
+    for k in 0..ctx.scale(60, 600) {
+        let (nr, nc, wr, wc) = *rng.pick(&[(6usize, 12usize, 6usize, 3usize), (5, 10, 4, 2), (8, 12, 6, 4), (9, 12, 4, 3), (6, 9, 3, 2)]);
+        let seed = rng.next() % 1000;
+        let (bc, bt) = (rng.range(1, 4), rng.range(0, 6));
+        let mg: Option<usize> = *rng.pick(&[None, None, Some(4), Some(6), Some(5)]);
+        let gt = if mg.is_some() { rng.range(0, 30) } else { 0 };
+        let uniform = rng.chance(1, 2);
+        let search = rng.chance(1, 4);
+        let trials = rng.range(1, 8) as u64;
+        let mut args: Vec<String> = vec!["mackay-neal".into(), nr.to_string(), nc.to_string(), wr.to_string(), wc.to_string(), seed.to_string(),
+            "--backtrack-cols".into(), bc.to_string(), "--backtrack-trials".into(), bt.to_string(), "--girth-trials".into(), gt.to_string()];
+        if let Some(g) = mg { args.push("--min-girth".into()); args.push(g.to_string()); }
+        if uniform { args.push("--uniform".into()); }
+        if search { args.push("--search".into()); args.push("--seed-trials".into()); args.push(trials.to_string()); }
+        let a: Vec<&str> = args.iter().map(|s| s.as_str()).collect();
+        let o = run_bin(&bin, &a);
+        let cfg = mackay_neal::Config { nrows: nr, ncols: nc, wr, wc, backtrack_cols: bc, backtrack_trials: bt, min_girth: mg, girth_trials: gt,
+            fill_policy: if uniform { FillPolicy::Uniform } else { FillPolicy::Random } };
+        // does the option matter for this seed?  (evidence that the comparison below can see a swapped or dropped option)
+        let plain = mackay_neal::Config { backtrack_cols: 0, backtrack_trials: 0, ..cfg.clone() };
+        // the parallel search may return ANY succeeding seed of the range: take the seed the binary reports and re-run the library with it
+        let lib: Option<(Option<u64>, SparseMatrix)> = if search {
+            let reported = o.stderr.lines().find_map(|l| l.trim().strip_prefix("seed = ").and_then(|x| x.parse::<u64>().ok()));
+            match reported {
+                Some(s) if s >= seed && s < seed + trials => cfg.run(s).ok().map(|h| (Some(s), h)),
+                Some(_) => Some((Some(u64::MAX), SparseMatrix::new(1, 1))),          // a seed outside the range: reported as DIFFERENT below
+                None => if (seed..seed + trials).all(|s| cfg.run(s).is_err()) { None } else { Some((Some(u64::MAX), SparseMatrix::new(1, 1))) },
+            }
+        } else { cfg.run(seed).ok().map(|h| (None, h)) };
+        if !search && plain.run(seed).ok().map(|h| h.alist()) != lib.as_ref().map(|l| l.1.alist()) { bt_used += 1; }
+        let swapped = mackay_neal::Config { backtrack_cols: bt, backtrack_trials: bc, ..cfg.clone() };
+        if !search && swapped.run(seed).ok().map(|h| h.alist()) != lib.as_ref().map(|l| l.1.alist()) { differs_by_option += 1; }
+        match lib {
+            Some((s, h)) => {
+                let seed_ok = match s { Some(s) => o.stderr.contains(&format!("seed = {}", s)), None => true };
+                ctx.emit(&format!("c20 same mackay-neal-options-{}", k), if o.stdout == format!("{}\n", h.alist()) && !o.status_nonzero && seed_ok { "equal" } else { "DIFFERENT" },
+                    true, &[if search { "mackay-neal-search-ok" } else { "mackay-neal-options-ok" }]);
+            }
+            None => ctx.emit(&format!("c20 invalid mackay-neal-options-fails-{}", k), &fail_tokens(&o)[5..], true, &["mackay-neal-options-err"]),
+        }
+    }
+    ctx.extra.insert("mackay_neal_cases_where_backtracking_changes_the_result".into(), bt_used.to_string());
+    ctx.extra.insert("mackay_neal_cases_where_swapping_the_two_backtrack_options_changes_the_result".into(), differs_by_option.to_string());
     // ---------------------------------------------------------------- encode: framing
     for k in 0..ctx.scale(60, 600) {
         let (h, _) = crate::c02::gen_h(&mut rng, 6, 14);
@@ -160,6 +205,9 @@ pub fn run(ctx: &mut Ctx, _replay: Option<&[String]>) {
         ("systematic-row-index-out-of-range", vec!["systematic", &bad]),
         ("systematic-junk", vec!["systematic", &junk]),
         ("encode-bad-pattern", vec!["encode", &good, &inp, &outp, "--puncturing", "1,,0"]),
+        ("encode-pattern-item-with-leading-zero", vec!["encode", &good, &inp, &outp, "--puncturing", "01,1,1,0"]),
+        ("encode-pattern-item-with-plus-sign", vec!["encode", &good, &inp, &outp, "--puncturing", "+1,1,1,0"]),
+        ("ber-pattern-item-double-zero", vec!["ber", &good, "--min-ebn0", "1", "--max-ebn0", "2", "--step-ebn0", "1", "--puncturing", "1,1,1,00"]),
         ("encode-pattern-not-dividing", vec!["encode", &good, &inp, &outp, "--puncturing", "1,1,1,1,0"]),
         ("encode-missing-input", vec!["encode", &good, "/nonexistent.in", &outp]),
         ("encode-bad-alist", vec!["encode", &bad, &inp, &outp]),
@@ -238,8 +286,10 @@ pub fn run(ctx: &mut Ctx, _replay: Option<&[String]>) {
         let mut ok = !o.status_nonzero && dm.len() == 2 && dl.len() == 2 && det_m.contains("LDPC+BCH results") && det_l.contains("LDPC-only results")
             && det_m.contains("Maximum bit errors correctable: 2");
         for (m, l) in dm.iter().zip(dl.iter()) {
-            // same Eb/N0 and frames; the outer code can only remove errors; every remaining error frame has >= 3 bit errors; the point stops on the outer-code count
-            ok = ok && ident(m, 8.0) && ident(l, 8.0) && m[0] == l[0] && m[1] == l[1] && m[3] == 15.0 && l[3] >= m[3] && l[2] >= m[2] && m[2] >= 3.0 * m[3]
+            // same Eb/N0 and frames; the outer code can only remove errors; every remaining error frame has >= 3 bit errors; the point stops on the outer-code count;
+            // the LDPC-only file really holds the LDPC-only statistics: at 2-3 dB on this 12-bit code 60-100 frames per point have one or two bit errors that the
+            // outer code removes (measured), so "strictly more" fails on correct code with probability < e^-60
+            ok = ok && ident(m, 8.0) && ident(l, 8.0) && m[0] == l[0] && m[1] == l[1] && m[3] == 15.0 && l[3] > m[3] && l[2] > m[2] && m[2] >= 3.0 * m[3]
                 && (l[2] - m[2]) <= 2.0 * (l[3] - m[3]);
         }
         ctx.emit("c20 berx outer-code", &format!("{} {}", dm.len(), ok as u8), true, &["ber-result-file-outer-code"]);
